@@ -13,6 +13,8 @@ THEOREMS = [
     "VK.C15_slate_sum_one",
     "VK.C15_pairSumProd_perm",
     "VK.C15_bt_table",
+    "VK.C15_combine",
+    "VK.C15_scaled_total",
 ]
 RULE = ("cases = preference intervals with 1-7 candidates, supports spanning six orders of magnitude, zero supports; "
         "1-3 intervals combined with cohesion shares (including 0 and 1); name-Bradley-Terry tables for 1-6 supported "
